@@ -7,7 +7,7 @@ EXTENDS PropsAdmin
 
 IxList(e) == IF e.ev = "tx" THEN e.a.ixs ELSE <<e.a>>
 IsCpi(ix) == Has(ix, "cpi") /\ ix.cpi = TRUE
-AllowedForeign == {"prog.compute", "prog.kamino", "prog.drift", "prog.jup", "prog.titan", "prog.ata"}
+AllowedForeign == {"prog.compute", "prog.kamino", "prog.drift", "prog.jup", "prog.titan", "prog.ata"}   \* (Solend is not on the list)
 IsForeign(ix) == ix.op = "foreign"
 ForeignProg(ix) == IF Has(ix, "program") THEN ix.program ELSE "prog.unknown"
 \* before the start: compute budget, record init, and the whitelisted venue refreshes (that program AND that instruction)
@@ -16,8 +16,8 @@ WhitelistedRefresh(ix) ==
   \/ (IsForeign(ix) /\ Has(ix, "disc") /\ ForeignProg(ix) = "prog.kamino" /\ ix.disc \in {"refresh_reserve", "refresh_obligation"})
   \/ (IsForeign(ix) /\ Has(ix, "disc") /\ ForeignProg(ix) = "prog.drift" /\ ix.disc = "update_spot_market_cumulative_interest")
 PreStartOk(ix) == (IsForeign(ix) /\ ForeignProg(ix) = "prog.compute") \/ (ix.op = "init_liq_record" /\ ~IsCpi(ix)) \/ WhitelistedRefresh(ix)
-InsideOk(ix) == (ix.op \in {"withdraw", "repay", "kamino_withdraw", "drift_withdraw"} /\ ~IsCpi(ix)) \/ (IsForeign(ix) /\ ForeignProg(ix) \in AllowedForeign)
-                \/ (ix.op = "init_liq_record" /\ ~IsCpi(ix)) \/ ix.op \in {"kamino_refresh", "drift_refresh"}
+InsideOk(ix) == (ix.op \in {"withdraw", "repay", "kamino_withdraw", "drift_withdraw", "solend_withdraw"} /\ ~IsCpi(ix)) \/ (IsForeign(ix) /\ ForeignProg(ix) \in AllowedForeign)
+                \/ (ix.op = "init_liq_record" /\ ~IsCpi(ix)) \/ ix.op \in {"kamino_refresh", "drift_refresh", "solend_refresh"}
 StartOps == {"start_liq", "start_delev"}
 EndOf(op) == IF op = "start_liq" THEN "end_liq" ELSE "end_delev"
 FIVE_USD == RInt(5)
